@@ -30,6 +30,13 @@ CONSTANTS
   TenZero <- NoTz
   SpPairs <- NoSpS
   SpArms <- One0
+  StiffPolys <- P00
+  DampPolys <- P00
+  TenKPolys <- P00
+  TenDPolys <- P00
+  SpStiffs <- T000
+  SpRanges <- Rng0
+  SpDamps <- T000
   Level = 3
   Tie = FALSE
   Rand = TRUE
